@@ -1143,7 +1143,28 @@ func ruleOneBatchPerNode(w *core.World, r *core.Report) {
 		r.Undecided("Batch.Put/one-batch-per-node", f.Pos(), "the node choice was not found")
 		return
 	}
-	isBatches := func(v ssa.Value) bool { return core.IsFieldLoad(core.Unwrap(v), "Batch", "batches") }
+	isBatchesField := func(v ssa.Value) bool { return core.IsFieldLoad(core.Unwrap(v), "Batch", "batches") }
+	// the batch's list of open node batches: read from the batch, or the parameter through which a helper of Put
+	// is handed it (at every call of that helper in Put)
+	isBatches := func(v ssa.Value) bool {
+		if isBatchesField(v) {
+			return true
+		}
+		par, isPar := core.Unwrap(v).(*ssa.Parameter)
+		if !isPar || par.Parent() == f {
+			return false
+		}
+		vals := argValues(par, f)
+		if len(vals) == 0 || (len(vals) == 1 && vals[0] == ssa.Value(par)) {
+			return false
+		}
+		for _, a := range vals {
+			if !isBatchesField(a) {
+				return false
+			}
+		}
+		return true
+	}
 	// the scan: batches[i].node compared with the node, i running over 0 .. len(batches)-1
 	var scanIf *ssa.If
 	var scanIdx *ssa.Phi
